@@ -2,7 +2,6 @@ package spec
 
 import (
 	"fmt"
-	"reflect"
 
 	"github.com/go-openapi/swag"
 )
@@ -57,7 +56,7 @@ func ResolveRef(root interface{}, ref *Ref) (*Schema, error) {
 	default:
 		// any other value the typed document holds there (a *SchemaOrArray, a *SchemaOrBool, the *Swagger itself...):
 		// the schema its JSON form decodes to, as when the root is supplied as generic JSON
-		if rv := reflect.ValueOf(res); res == nil || (rv.Kind() == reflect.Ptr && rv.IsNil()) {
+		if designatesNothing(res) {
 			return nil, fmt.Errorf("%q designates nothing in the document: %w", ref.String(), ErrSpec)
 		}
 		newSch := new(Schema)
